@@ -338,6 +338,10 @@ def g_unexpected_token(ctx, F, body, site):
             elif is_callee(ct, "frontend::parser::Parser::<'a>::new_parse_error"):
                 # location = current token if any: the construction must sit where a current token exists
                 paired = _current_token_exists(F, fn, cb)
+                if not paired and fn.kind != "closure":
+                    # a private helper that builds the error first thing: every caller calls it where a current token exists
+                    sites = [(b2, bi2) for b2, bi2, t2 in common.who_calls(F, lambda c: (c.get("resolved") or c.get("def")) == fn.path)]
+                    paired = bool(sites) and not _advances_between(fn, 0, cb) and all(_current_token_exists(F, b2, bi2) for b2, bi2 in sites)
         if not paired:
             return False, "UnexpectedToken is constructed in %s without a guaranteed token location" % fn.path
     if n == 0:
